@@ -1052,7 +1052,8 @@ func (l *lexer) scanComment() bool {
 			l.comment(true)
 			return err == io.EOF
 		}
-		if r == '\n' {
+		if r == '\n' || r == '`' && l.cmdSubst == '`' {
+			// a comment inside backquotes ends at the closing backquote
 			l.unread()
 			l.comment(true)
 			return true
@@ -1653,6 +1654,14 @@ func (l *lexer) linebreak() bool {
 				return true
 			}
 			l.mark(0)
+		case '`':
+			if hash && l.cmdSubst == '`' {
+				// a comment inside backquotes ends at the closing backquote
+				l.unread()
+				l.comment(hash)
+				return true
+			}
+			fallthrough
 		default:
 			if !hash {
 				l.unread()
